@@ -5,6 +5,8 @@ import itertools
 
 import numpy as np
 from hypothesis import strategies as st
+
+from mv import hperm
 from hypothesis.stateful import RuleBasedStateMachine, initialize, precondition, rule
 
 from mv import gen_atoms, model_atoms as M, ref_lammps
@@ -570,8 +572,8 @@ def make_machine(stats, tier, ctx):
                 tags = {x for t in o.model["terms"][k] for x in t["tags"]}
                 idx = [j for j, a in enumerate(o.model["atoms"]) if a["tag"] in tags]
             else:
-                k = data.draw(st.integers(1, n))
-                idx = list(data.draw(st.permutations(range(n))))[:k]
+                k = data.draw(hperm.integers(1, n))
+                idx = list(data.draw(hperm.permutations(range(n))))[:k]
             self.run({"op": "delete", "obj": i, "indices": idx})
 
         @precondition(lambda self: not self.skip)
@@ -590,8 +592,8 @@ def make_machine(stats, tier, ctx):
             if i is None:
                 return
             n = len(self.w.pool[i].model["atoms"])
-            k = data.draw(st.integers(1, min(n, 4)))
-            idx = list(data.draw(st.permutations(range(n))))[:k]
+            k = data.draw(hperm.integers(1, min(n, 4)))
+            idx = list(data.draw(hperm.permutations(range(n))))[:k]
             self.run({"op": "subset", "obj": i, "indices": idx})
 
         @precondition(lambda self: not self.skip)
@@ -603,9 +605,9 @@ def make_machine(stats, tier, ctx):
             o = self.w.pool[i]
             spec = compatible_fragment(data.draw, o)
             ns, no = len(o.model["atoms"]), len(spec["pos"])
-            k = data.draw(st.integers(0, min(ns, no)))
-            keys = list(data.draw(st.permutations(range(no))))[:k]
-            vals = list(data.draw(st.permutations(range(ns))))[:k]
+            k = data.draw(hperm.integers(0, min(ns, no)))
+            keys = list(data.draw(hperm.permutations(range(no))))[:k]
+            vals = list(data.draw(hperm.permutations(range(ns))))[:k]
             self.run({"op": "extend", "obj": i, "spec": spec, "map": {str(a): b for a, b in zip(keys, vals)},
                       "mode": data.draw(st.sampled_from(["default", "explicit", "twice"]))})
 
